@@ -179,7 +179,16 @@ def render_header(rng, flags, style):
         return ""
     items = []
     for k, v in flags.items():
-        items.append(("" if v else "!") + FLAG_NAMES[k])
+        name = FLAG_NAMES[k]
+        # header keys are case-insensitive, in the negated form too (`!Dot_Matches_New_Line`)
+        c = rng.random()
+        if c < 0.12:
+            name = name.upper()
+        elif c < 0.24:
+            name = name.title()
+        elif c < 0.32:
+            name = "".join(ch.upper() if rng.random() < 0.5 else ch for ch in name)
+        items.append(("" if v else "!") + name)
     rng.shuffle(items)
     sep = rng.choice([",", ", ", " ,\n  ", ",\t"])
     body = sep.join(items)
